@@ -93,6 +93,11 @@ CLAIMS = {
    note=TB+"Programs: the corpus (17 generated functions); integer wrap-around and float arithmetic are not interpreted (conversions uninterpreted on both sides); panics inside user code are outside.",
    technique="symbolic execution of the tool's generated code (go/ssa) against reference functions, SMT equality of symbolic results, native replay",
    ref="4/C02"),
+ "C12": dict(
+   text="Bounded symbolic execution of the code that separates a run from whatever is at the output path: NewParser's ParseFile hook with the loader, file system and Go parser as symbolic environment (the output file's bytes are arbitrary and are proven never to reach the parser; the result does not depend on the output path's state nor on the loaded package's error lists), plus the write discipline of Run/Generate (one whole-file WriteFile after everything succeeded). Together: the only channel from the bytes at the output path into a run is Stat/SameFile. Counterexamples and one validation run are replayed end to end with the built binary (stale, longer, truncated at many points, broken output; twice in a row; -out = input).",
+   note=TB+"Assumed, not decided: go list / packages.Load behave the same whatever same-package bytes the output path holds (external process).",
+   technique="SMT-guided symbolic execution of go/ssa with symbolic loader/file system/parser; end-to-end regeneration replay with the built binary",
+   ref="4/C12"),
 }
 
 NA_REASON = "check under construction in this session (engine exists, harness not yet registered); see DESIGN.md section 4"
